@@ -285,6 +285,28 @@ def run_check(pid, mod, tier, seed):
         else:
             still_undecided.append((o, r))
     undecided = still_undecided
+    # thorough tier: every native replay battery of this property is also run on its own (bounded, on the real code,
+    # judged by the contract's oracle) - a disagreement between a contract's oracle and the code shows up here even where
+    # every obligation is discharged (i.e. it cross-checks the ENCODING); never counted as proved
+    battery_results = []
+    if tier == "thorough":
+        done_fn = set()
+        for key, fn in list(REG.replays.items()):
+            unit = key[0] if isinstance(key, tuple) else key
+            if unit not in {c_.fq for c_ in units} or id(fn) in done_fn:
+                continue
+            done_fn.add(id(fn))
+            class _O:      # minimal obligation stand-in
+                pass
+            o_ = _O()
+            o_.unit, o_.name, o_.kind, o_.note, o_.path = unit, "battery#native_scenarios_agree_with_the_contract_oracle", "bounded", "native scenario battery", []
+            tb = time.time()
+            rep = try_replay(pid, o_, {"model": None})
+            battery_results.append({"unit": unit, "failing_input_found": bool(rep and rep.get("confirmed")), "error": (rep or {}).get("error"), "wall_s": round(time.time() - tb, 1)})
+            if rep and rep.get("confirmed") and (unit, o_.name) not in seen_names and not any(k.get("unit") == unit for k in known):
+                seen_names.add((unit, o_.name))
+                path = write_replay(pid, o_, {"backend": "native-battery", "verdict": "failing input"}, rep)
+                violations.append((o_, {"backend": "native-battery"}, rep, path))
     for s in syn_results:
         if not s["ok"]:
             kf = next((k for k in known if k.get("obligation") == s["name"]), None)
@@ -346,6 +368,12 @@ def run_check(pid, mod, tier, seed):
         "samples": samples,
         "repo": REPO,
     }
+    if battery_results:
+        coverage["native_batteries"] = {"label": "bounded (scenario batteries on the real code; never counted as proved)", "runs": battery_results}
+    if os.environ.get("PYVC_BOTH"):
+        sec = [r.get("second") for o, r in zip(obligations, results) if r.get("backend") == "z3" and not o.expect_sat]
+        coverage["second_solver"] = {"what": "thorough tier: every obligation z3 decided is decided again by cvc5 on the same SMT-LIB text; a contradiction is a checker failure",
+                                     "agreed": sum(1 for x in sec if x in ("sat", "unsat")), "second_solver_undecided": sum(1 for x in sec if x not in ("sat", "unsat"))}
     # ---- self-check of the regex translation against CPython's `re` on every pattern this run translated
     from . import regex2smt
     selfcheck_bad = []
